@@ -550,10 +550,8 @@ package iscp
 //@   after call retry.Do: failed = (resErr != nil)
 //@   assert call retry.Do: d.wireConn == parentConn.wireConn
 //@   assert call closeWithError: failed && arg2 == resErr
-//@   ensures imp(failed, closedWith != nil)
-//@   ensures imp(result == nil && !failed, connected)
-// (that a failed resume also RETURNS the error is not stated: the engine cannot exclude that the
-//  uncontracted closeWithError changes the captured variable resErr before it is returned)
+//@   ensures imp(failed, result != nil && closedWith != nil)
+//@   ensures imp(result == nil, connected)
 //@ func (*Downstream).resume$1
 //@   props C05
 //@   assert call SubscribeDownstreamChunk$: arg0 == d.wireConn && arg2 == d.idAlias
